@@ -908,17 +908,18 @@ Theorem fill_rect_routes_agree st x y w h src o stF stG :
   rz (d_cur st) = rast_new (d_w st) (d_h st) ->
   let ix := to_i32 x in let iy := to_i32 y in let iw := to_i32 w in let ih := to_i32 h in
   0 < iw -> 0 < ih ->
+  i32_min <= ix + iw <= i32_max -> i32_min <= iy + ih <= i32_max ->
   rect_aligned xf_identity x y w h ix iy (ix + iw) (iy + ih) ->
   fill_rect st x y w h src o = Ok stF ->
   fill st (rect_path x y w h) src o = Ok stG ->
   d_buf stF = d_buf stG.
 Proof.
-  intros Hplain Hbuf Hsrc Hctm HW HH Hidle ix iy iw ih Hiw Hih Hal HF HG.
+  intros Hplain Hbuf Hsrc Hctm HW HH Hidle ix iy iw ih Hiw Hih Hsx Hsy Hal HF HG.
   unfold fill_rect in HF. fold ix iy iw ih in HF.
   destruct (xf_is_identity (d_ctm st) && _ && _) eqn:Econd; [|congruence].
-  unfold chk32 in HF.
-  destruct (in_i32 (ix + iw)); [|discriminate]. cbn [bind] in HF.
-  destruct (in_i32 (iy + ih)); [|discriminate]. cbn [bind] in HF.
+  cbv zeta in HF. unfold sat32 in HF.
+  replace (Z.max i32_min (Z.min i32_max (ix + iw))) with (ix + iw) in HF by lia.
+  replace (Z.max i32_min (Z.min i32_max (iy + ih))) with (iy + ih) in HF by lia.
   replace (Z.min ix (ix + iw)) with ix in HF by lia. replace (Z.max ix (ix + iw)) with (ix + iw) in HF by lia.
   replace (Z.min iy (iy + ih)) with iy in HF by lia. replace (Z.max iy (iy + ih)) with (iy + ih) in HF by lia.
   destruct xf_inverse_identity as [ti Hti]. rewrite <- Hctm in Hti.
@@ -1302,7 +1303,8 @@ Proof.
   - apply andb_true_iff in Eint. destruct Eint as [Eint Eh].
     apply andb_true_iff in Eint. destruct Eint as [Eint Ew].
     apply andb_true_iff in Eint. destruct Eint as [Ex Ey].
-    apply (fill_rect_routes_agree st x y w h src o stF stG Hplain Hbuf Hsrc Hctm HW HH Hidle Hiw Hih); try assumption.
+    apply (fill_rect_routes_agree st x y w h src o stF stG Hplain Hbuf Hsrc Hctm HW HH Hidle Hiw Hih); try assumption;
+      try (fold ix iy iw ih; unfold i32_min, i32_max; lia).
     apply rect_aligned_integer; assumption.
   - unfold fill_rect in HF. fold ix iy iw ih in HF. rewrite Eint in HF.
     rewrite andb_false_r in HF. cbn [andb] in HF. congruence.
@@ -1328,10 +1330,7 @@ Proof.
   assert (HF : exists stF, fill_rect st x y w h src o = Ok stF).
   { unfold fill_rect. fold ix iy iw ih.
     destruct (xf_is_identity (d_ctm st) && _ && _); [|exists stG; exact HG].
-    unfold chk32.
-    replace (in_i32 (ix + iw)) with true by (unfold in_i32, i32_min, i32_max; lia).
-    replace (in_i32 (iy + ih)) with true by (unfold in_i32, i32_min, i32_max; lia).
-    cbn [bind].
+    cbv zeta.
     set (irect := r_inter _ (surface_rect st)).
     destruct (r_empty irect) eqn:Ee; [eexists; reflexivity|].
     assert (Hb : 0 <= x0 irect /\ x0 irect < x1 irect /\ x1 irect <= d_w st /\
